@@ -23,6 +23,11 @@
     for arbitrary targets at arbitrary moments.  Queues hold pills only; a
     stopping actor's queue is not served (it is flushed at the end).
 
+    Restarts are not steps of this model: a restart keeps the process, its
+    registration, its queue and its Context (children map, parentCtx), i.e.
+    every component of [state]; the harness covers it on the real engine
+    (steps "restart" and "spawn" of family tree08).
+
     Pills are named by who sends them: [PThr i] the pill of thread i,
     [PKid p c] the pill parent p sends to its child c while it cleans up.
 
